@@ -144,12 +144,14 @@ func (m *memRegister) GetClusterMetaInfo() (cluster.ClusterMetaInfo, error) {
 func (m *memRegister) AcquireAndWatchLeader(leader chan *cluster.NodeInfo, stop chan struct{}) {}
 func (m *memRegister) GetDataNodes() ([]cluster.NodeInfo, error)                               { return nil, nil }
 func (m *memRegister) WatchDataNodes(nodeC chan []cluster.NodeInfo, stopC chan struct{})       {}
-func (m *memRegister) CreateNamespace(ns string, meta *cluster.NamespaceMetaInfo) error        { return errNotImpl }
+func (m *memRegister) CreateNamespace(ns string, meta *cluster.NamespaceMetaInfo) error {
+	return errNotImpl
+}
 func (m *memRegister) UpdateNamespaceMetaInfo(ns string, meta *cluster.NamespaceMetaInfo, oldGen cluster.EpochType) error {
 	return errNotImpl
 }
 func (m *memRegister) CreateNamespacePartition(ns string, partition int) error { return errNotImpl }
-func (m *memRegister) IsExistNamespace(ns string) (bool, error)               { return ns == m.ns, nil }
+func (m *memRegister) IsExistNamespace(ns string) (bool, error)                { return ns == m.ns, nil }
 func (m *memRegister) IsExistNamespacePartition(ns string, partition int) (bool, error) {
 	return ns == m.ns && partition == 0, nil
 }
